@@ -35,7 +35,7 @@ Notation Inv := (Inv C).
 
 Definition body_spec (body : option err -> st -> res * list obs * option err * st) : Prop :=
   forall hc sc r l h' s' tc basec,
-    body hc sc = (r, l, h', s') -> s_dead sc = false -> s_nonest sc = false ->
+    body hc sc = (r, l, h', s') -> s_dead sc = false ->
     s_tx sc = Some (mkTx tc basec) -> gen_ok (s_gen sc) basec ->
     x_rb (s_fl s') = false -> x_drop (s_fl s') = false ->
     exists t' lc, Inv basec (is_ok r) hc sc tc [] l h' s' t' lc.
@@ -64,7 +64,7 @@ Qed.
 
 Lemma nested_step : forall body, body_spec body -> body_mono body ->
   forall h s r o h1 s1 t local base,
-  nested0 E C fault body h s = (r, o, h1, s1) -> s_dead s = false -> s_nonest s = false ->
+  nested0 E C fault body h s = (r, o, h1, s1) -> s_dead s = false ->
   s_tx s = Some (mkTx t (local ++ base)) -> gen_ok (s_gen s) (local ++ base) ->
   x_rb (s_fl s1) = false -> x_drop (s_fl s1) = false ->
   h1 = h /\
@@ -72,18 +72,17 @@ Lemma nested_step : forall body, body_spec body -> body_mono body ->
        /\ (forall avail, Sub avail (unames local) -> Sub avail (unames local1)))
    \/ (exists e, r = RErr e /\ o = OC false [] CNil (CErr e) /\ Inv base true h s t local [o] h s1 t local)).
 Proof.
-  intros body HB HM h s r o h1 s1 t local base H Hdead Hnn Htx Hg Hrb Hdr. unfold nested0 in H.
-  rewrite Hnn, orb_false_r in H.
-  destruct (c_nonest C) eqn:En.
+  intros body HB HM h s r o h1 s1 t local base H Hdead Htx Hg Hrb Hdr. unfold nested0 in H.
+  destruct (c_nonest C || s_nonest s) eqn:En.
   - (* nested transactions disabled: the function runs on the enclosing transaction *)
     destruct (body h s) as [[[r0 l0] h0] s0] eqn:Eb. inversion H; subst r o h1 s1. clear H.
     split; [reflexivity|].
-    destruct (HB _ _ _ _ _ _ t (local ++ base) Eb Hdead Hnn Htx Hg Hrb Hdr) as [t' [lc HI]].
+    destruct (HB _ _ _ _ _ _ t (local ++ base) Eb Hdead Htx Hg Hrb Hdr) as [t' [lc HI]].
     destruct HI as (A1 & A2 & A3 & A4 & A5 & A6 & A7 & A8 & A9 & nops & B1 & B2 & B3).
-    cbn [app] in A2. rewrite En in A2; cbn [negb] in A2.
+    cbn [app] in A2. unfold nest_of in A2. rewrite En in A2; cbn [negb] in A2.
     left. exists t', (lc ++ local), l0. split; [reflexivity|].
     split; [|intros avail HS; rewrite unames_app; apply Sub_app_l; exact HS].
-    unfold C04_Proofs2.Inv. rewrite ?En; cbn [negb].
+    unfold C04_Proofs2.Inv, nest_of. rewrite ?En; cbn [negb].
     split. { rewrite <- app_assoc; exact A1. }
     split. { rewrite spec_OC, <- app_assoc. rewrite A2. destruct (cls_of r0); reflexivity. }
     split. { rewrite <- app_assoc; exact A3. }
@@ -160,10 +159,10 @@ Proof.
       assert (Hgc : gen_ok (s_gen s1') basec).
       { subst s1'; cbn [set_tx s_gen]. intros k t0 [Hin|Hin]; [inversion Hin; lia | eapply Hg1; exact Hin]. }
       assert (Hdead1 : s_dead s1' = false) by (subst s1'; exact Hdead).
-      assert (Hnn1 : s_nonest s1' = false) by (subst s1'; exact Hnn).
-      destruct (HB _ _ _ _ _ _ t basec Eb Hdead1 Hnn1 Htxc Hgc Hrb2 Hdr2) as [t' [lc HI]].
+      assert (Hnn1 : s_nonest s1' = s_nonest s) by (subst s1'; reflexivity).
+      destruct (HB _ _ _ _ _ _ t basec Eb Hdead1 Htxc Hgc Hrb2 Hdr2) as [t' [lc HI]].
       destruct HI as (A1 & A2 & A3 & A4 & A5 & A6 & A7 & A8 & A9 & nops & B1 & B2 & B3).
-      cbn [app] in A2. rewrite En in A2; cbn [negb] in A2.
+      cbn [app] in A2. unfold nest_of in A2. rewrite Hnn1, En in A2; cbn [negb] in A2.
       assert (Hfu : fu basec = fu (local ++ base)) by reflexivity.
       assert (Hgen1 : s_gen s1' = S g) by (subst s1'; reflexivity).
       assert (Hops1 : s_ops s1' = (KSave, false) :: s_ops s) by (subst s1'; cbn; rewrite Ef; reflexivity).
@@ -176,7 +175,7 @@ Proof.
         assert (Er0 : r0 = ROk) by (destruct r0; try discriminate; reflexivity). subst r0.
         left. exists t', (lc ++ (NGen g, t) :: local), l0. split; [reflexivity|].
         split; [|intros avail HS; rewrite unames_app; apply Sub_app_l; exact HS].
-        unfold C04_Proofs2.Inv. rewrite ?En; cbn [negb].
+        unfold C04_Proofs2.Inv, nest_of. rewrite ?En; cbn [negb].
         split. { rewrite <- app_assoc; exact A1. }
         split. { rewrite spec_OC, <- app_assoc. rewrite <- Hfu. exact A2. }
         split. { rewrite <- app_assoc; exact A3. }
@@ -208,7 +207,7 @@ Proof.
            subst h2 s1.
            left. exists t, ((NGen g, t) :: local), l0. split; [reflexivity|].
            split; [|intros avail HS; exact HS].
-           unfold C04_Proofs2.Inv. rewrite ?En; cbn [negb]. cbn [set_tx s_tx s_gen s_db s_txlog s_ops s_fl].
+           unfold C04_Proofs2.Inv, nest_of. rewrite ?En; cbn [negb]. cbn [set_tx s_tx s_gen s_db s_txlog s_ops s_fl].
            split; [reflexivity|].
            split. { rewrite spec_OC.
                     destruct (cls_of r0) eqn:Ec; [destruct r0; discriminate | reflexivity | reflexivity]. }
@@ -278,11 +277,31 @@ Qed.
 Lemma set_dead_id : forall s, set_dead s (s_dead s) = s.
 Proof. intros []; reflexivity. Qed.
 
+Lemma set_nonest_id : forall s, set_nonest s (s_nonest s) = s.
+Proof. intros []; reflexivity. Qed.
+
+(* the observation of a call whose receiver switched nested transactions off: judged with
+   nested transactions off, whatever the enclosing handle says *)
+Lemma inv_nn : forall base h s t local o h' s0 t1 local1,
+  Inv base true h (set_nonest s true) t local [o] h' s0 t1 local1 ->
+  Inv base true h s t local [ONN o] h' (set_nonest s0 (s_nonest s)) t1 local1.
+Proof.
+  intros base h s t local o h' s0 t1 local1 H.
+  destruct H as (A1 & A2 & A3 & A4 & A5 & A6 & A7 & A8 & A9 & nops & B1 & B2 & B3).
+  unfold C04_Proofs2.Inv. cbn [set_nonest s_tx s_gen s_db s_fl s_ops] in *.
+  split; [exact A1|].
+  split. { unfold nest_of in A2. cbn [set_nonest s_nonest] in A2. rewrite orb_true_r in A2. exact A2. }
+  split; [exact A3|]. split; [exact A4|]. split; [exact A5|]. split; [exact A6|].
+  split. { unfold s_logd in *. cbn [set_nonest s_txlog s_dead s_nonest] in *. inversion A7. reflexivity. }
+  split; [exact A8|]. split; [exact A9|].
+  exists nops. split; [exact B1|]. split; [exact B2|]. exact B3.
+Qed.
+
 (* a nested call under its own (never cancelled) context, with the nested-transaction setting left
    alone, behaves like one under the enclosing context *)
 Lemma nested_cx_step : forall cx body, body_spec C body -> body_mono body ->
   forall h s r o h1 s1 t local base,
-  nested E C fault cx false body h s = (r, o, h1, s1) -> s_dead s = false -> s_nonest s = false ->
+  nested E C fault cx false body h s = (r, o, h1, s1) -> s_dead s = false ->
   s_tx s = Some (mkTx t (local ++ base)) -> gen_ok (s_gen s) (local ++ base) ->
   x_rb (s_fl s1) = false -> x_drop (s_fl s1) = false ->
   h1 = h /\
@@ -290,14 +309,14 @@ Lemma nested_cx_step : forall cx body, body_spec C body -> body_mono body ->
        /\ (forall avail, Sub avail (unames local) -> Sub avail (unames local1)))
    \/ (exists e, r = RErr e /\ o = OC false [] CNil (CErr e) /\ Inv base true h s t local [o] h s1 t local)).
 Proof.
-  intros cx body HB HM h s r o h1 s1 t local base H Hdead Hnn Htx Hg Hrb Hdr. unfold nested in H.
+  intros cx body HB HM h s r o h1 s1 t local base H Hdead Htx Hg Hrb Hdr. unfold nested in H.
   assert (Es : (if cx then set_dead s false else s) = s).
   { destruct cx; [|reflexivity]. rewrite <- Hdead. apply set_dead_id. }
   rewrite Es in H.
   destruct (nested0 E C fault body h s) as [[[r0 o0] h0] s0] eqn:En. inversion H; subst r0 o0 h0 s1. clear H.
   assert (Ef : s_fl (if cx then set_dead s0 (s_dead s) else s0) = s_fl s0) by (destruct cx; reflexivity).
   rewrite Ef in Hrb, Hdr.
-  pose proof (nested_step E savepoint_pushes rollback_to_exact C savepoints fault body HB HM _ _ _ _ _ _ t local base En Hdead Hnn Htx Hg Hrb Hdr) as [Eh K].
+  pose proof (nested_step E savepoint_pushes rollback_to_exact C savepoints fault body HB HM _ _ _ _ _ _ t local base En Hdead Htx Hg Hrb Hdr) as [Eh K].
   assert (Hs0 : (if cx then set_dead s0 (s_dead s) else s0) = s0).
   { destruct cx; [|reflexivity].
     assert (Hd0 : s_dead s0 = false).
@@ -306,8 +325,48 @@ Proof.
   rewrite Hs0. split; [exact Eh | exact K].
 Qed.
 
+(* any nested call - under its own context or not, with nested transactions switched off on its
+   receiver or not - is one step of the enclosing body and hands the enclosing handle back *)
+Lemma nested_any_step : forall cx nn body, body_spec C body -> body_mono body ->
+  forall h s r o h1 s1 t local base,
+  nested E C fault cx nn body h s = (r, o, h1, s1) -> s_dead s = false ->
+  s_tx s = Some (mkTx t (local ++ base)) -> gen_ok (s_gen s) (local ++ base) ->
+  x_rb (s_fl s1) = false -> x_drop (s_fl s1) = false ->
+  h1 = h /\ exists t1 local1, Inv base true h s t local [o] h s1 t1 local1
+             /\ (forall avail, Sub avail (unames local) -> Sub avail (unames local1)).
+Proof.
+  intros cx nn body HB HM h s r o h1 s1 t local base H Hdead Htx Hg Hrb Hdr.
+  destruct nn.
+  - unfold nested in H.
+    assert (Es : (if cx then set_dead s false else s) = s).
+    { destruct cx; [|reflexivity]. rewrite <- Hdead. apply set_dead_id. }
+    rewrite Es in H.
+    destruct (nested0 E C fault body h (set_nonest s true)) as [[[r0 o0] h0] s0] eqn:En.
+    inversion H; subst r0 o h0 s1. clear H.
+    assert (Ef : s_fl (if cx then set_dead (set_nonest s0 (s_nonest s)) (s_dead s) else set_nonest s0 (s_nonest s)) = s_fl s0)
+      by (destruct cx; reflexivity).
+    rewrite Ef in Hrb, Hdr.
+    pose proof (nested_step E savepoint_pushes rollback_to_exact C savepoints fault body HB HM _ _ _ _ _ _ t local base En Hdead Htx Hg Hrb Hdr) as [Eh K].
+    assert (K' : exists t1 local1, Inv base true h (set_nonest s true) t local [o0] h s0 t1 local1
+                   /\ (forall avail, Sub avail (unames local) -> Sub avail (unames local1))).
+    { destruct K as [[t1 [local1 [l0 [_ [St HS]]]]] | [e [_ [_ St]]]].
+      - exists t1, local1. split; assumption.
+      - exists t, local. split; [exact St | auto]. }
+    destruct K' as [t1 [local1 [St HS]]].
+    apply inv_nn in St.
+    assert (Hs0 : (if cx then set_dead (set_nonest s0 (s_nonest s)) (s_dead s) else set_nonest s0 (s_nonest s)) = set_nonest s0 (s_nonest s)).
+    { destruct cx; [|reflexivity].
+      pose proof (inv_dead _ _ _ _ _ _ _ _ _ _ _ St Hdead) as Hd0.
+      rewrite Hdead, <- Hd0. apply set_dead_id. }
+    rewrite Hs0. split; [exact Eh|]. exists t1, local1. split; assumption.
+  - destruct (nested_cx_step cx body HB HM _ _ _ _ _ _ _ _ _ H Hdead Htx Hg Hrb Hdr)
+      as [Eh [[t1 [local1 [l0 [_ [St HS]]]]] | [e [_ [_ St]]]]]; (split; [exact Eh|]).
+    + exists t1, local1. split; assumption.
+    + exists t, local. split; [exact St | auto].
+Qed.
+
 Lemma body_inv : forall p avail h s r l h' s' t local base,
-  run_body E C fault p h s = (r, l, h', s') -> s_dead s = false -> s_nonest s = false -> plain_prog p = true ->
+  run_body E C fault p h s = (r, l, h', s') -> s_dead s = false -> plain_prog p = true ->
   s_tx s = Some (mkTx t (local ++ base)) ->
   Sub avail (unames local) -> scoped avail p = true ->
   gen_ok (s_gen s) (local ++ base) ->
@@ -315,7 +374,7 @@ Lemma body_inv : forall p avail h s r l h' s' t local base,
   exists t' local', Inv base (is_ok r) h s t local l h' s' t' local'.
 Proof.
   induction p as [o | m chk k IHk | chk k IHk | b IHb chk rcv cx nn k IHk | n k IHk | n k IHk | k IHk];
-    intros avail h s r l h' s' t local base H Hdead Hnn Hnc Htx HS Hsc Hg Hrb Hdr; cbn [run_body] in H; cbn [scoped] in Hsc;
+    intros avail h s r l h' s' t local base H Hdead Hnc Htx HS Hsc Hg Hrb Hdr; cbn [run_body] in H; cbn [scoped] in Hsc;
     cbn [plain_prog] in Hnc; [| | | | | |discriminate].
   - (* Done *)
     exists t, local. destruct o; inversion H; subst; apply inv_refl; assumption.
@@ -323,13 +382,12 @@ Proof.
     destruct (h_stmt fault (Some m) h s) as [[e n0] s1] eqn:Es.
     pose proof (write_step C fault _ _ _ _ _ _ _ _ _ Es Hdead Htx Hg) as St.
     pose proof (inv_dead _ _ _ _ _ _ _ _ _ _ _ St Hdead) as Hd1.
-    pose proof (inv_nonest _ _ _ _ _ _ _ _ _ _ _ St Hnn) as Hn1.
     assert (Hcont : forall r0 l0 h0 s0, run_body E C fault k h s1 = (r0, l0, h0, s0) ->
               (r0, OW m (cls_oe e) :: l0, h0, s0) = (r, l, h', s') ->
               exists t' local', Inv base (is_ok r) h s t local l h' s' t' local').
     { intros r0 l0 h0 s0 Ek Eq. inversion Eq; subst r0 l h0 s0. clear Eq.
       destruct St as (A1 & A2 & A3 & St').
-      destruct (IHk avail _ _ _ _ _ _ _ _ _ Ek Hd1 Hn1 Hnc A1 HS Hsc A3 Hrb Hdr) as [t' [local' HI]].
+      destruct (IHk avail _ _ _ _ _ _ _ _ _ Ek Hd1 Hnc A1 HS Hsc A3 Hrb Hdr) as [t' [local' HI]].
       exists t', local'. eapply inv_trans_cons; [|exact HI]. unfold C04_Proofs2.Inv. repeat (split; [assumption|]). exact St'. }
     destruct e as [e|]; [destruct chk|].
     + inversion H; subst. eexists; eexists. eapply inv_ok_false; exact St.
@@ -339,13 +397,12 @@ Proof.
     destruct (h_stmt fault None h s) as [[e n0] s1] eqn:Es.
     pose proof (read_step C fault _ _ _ _ _ _ _ _ Es Hdead Htx Hg) as St.
     pose proof (inv_dead _ _ _ _ _ _ _ _ _ _ _ St Hdead) as Hd1.
-    pose proof (inv_nonest _ _ _ _ _ _ _ _ _ _ _ St Hnn) as Hn1.
     assert (Hcont : forall r0 l0 h0 s0, run_body E C fault k h s1 = (r0, l0, h0, s0) ->
               (r0, OR (cls_oe e) n0 :: l0, h0, s0) = (r, l, h', s') ->
               exists t' local', Inv base (is_ok r) h s t local l h' s' t' local').
     { intros r0 l0 h0 s0 Ek Eq. inversion Eq; subst r0 l h0 s0. clear Eq.
       destruct St as (A1 & A2 & A3 & St').
-      destruct (IHk avail _ _ _ _ _ _ _ _ _ Ek Hd1 Hn1 Hnc A1 HS Hsc A3 Hrb Hdr) as [t' [local' HI]].
+      destruct (IHk avail _ _ _ _ _ _ _ _ _ Ek Hd1 Hnc A1 HS Hsc A3 Hrb Hdr) as [t' [local' HI]].
       exists t', local'. eapply inv_trans_cons; [|exact HI]. unfold C04_Proofs2.Inv. repeat (split; [assumption|]). exact St'. }
     destruct e as [e|]; [destruct chk|].
     + inversion H; subst. eexists; eexists. eapply inv_ok_false; exact St.
@@ -353,21 +410,19 @@ Proof.
     + destruct (run_body E C fault k h s1) as [[[r0 l0] h0] s0] eqn:Ek. eapply Hcont; [reflexivity | exact H].
   - (* Child *)
     apply andb_prop in Hsc. destruct Hsc as [Hscb Hsck].
-    apply andb_prop in Hnc. destruct Hnc as [Hnc0 Hnck]. apply andb_prop in Hnc0. destruct Hnc0 as [Hnn0 Hncb].
-    destruct nn; [discriminate|]. clear Hnn0.
-    destruct (nested E C fault cx false (run_body E C fault b) h s) as [[[r0 o] h1] s1] eqn:En.
+    apply andb_prop in Hnc. destruct Hnc as [Hncb Hnck].
+    destruct (nested E C fault cx nn (run_body E C fault b) h s) as [[[r0 o] h1] s1] eqn:En.
     assert (HBS : body_spec C (run_body E C fault b)).
-    { intros hc sc rc lc hc' sc' tc basec Eb Hdc0 Hnc0 Htc Hgc Hrc Hdc.
-      apply (IHb [] hc sc rc lc hc' sc' tc [] basec Eb Hdc0 Hnc0 Hncb Htc (sub_nil _) Hscb Hgc Hrc Hdc). }
+    { intros hc sc rc lc hc' sc' tc basec Eb Hdc0 Htc Hgc Hrc Hdc.
+      apply (IHb [] hc sc rc lc hc' sc' tc [] basec Eb Hdc0 Hncb Htc (sub_nil _) Hscb Hgc Hrc Hdc). }
     pose proof (run_body_flags E C fault b) as HMB.
     (* one step (the nested call), whatever it returned, leaves the enclosing handle as it was *)
     assert (Hstep : x_rb (s_fl s1) = false -> x_drop (s_fl s1) = false ->
               h1 = h /\ exists t1 local1, Inv base true h s t local [o] h s1 t1 local1 /\ Sub avail (unames local1)).
     { intros R D.
-      destruct (nested_cx_step cx _ HBS HMB _ _ _ _ _ _ _ _ _ En Hdead Hnn Htx Hg R D)
-        as [Eh [[t1 [local1 [l0 [Eo [St HSp]]]]] | [e' [Er [Eo St]]]]].
-      - split; [exact Eh|]. exists t1, local1. split; [exact St | apply HSp; exact HS].
-      - split; [exact Eh|]. exists t, local. split; [exact St | exact HS]. }
+      destruct (nested_any_step cx nn _ HBS HMB _ _ _ _ _ _ _ _ _ En Hdead Htx Hg R D)
+        as [Eh [t1 [local1 [St HSp]]]].
+      split; [exact Eh|]. exists t1, local1. split; [exact St | apply HSp; exact HS]. }
     (* continuing with k *)
     assert (Hcont : forall r1 l1 h2 s2,
               run_body E C fault k h1 s1 = (r1, l1, h2, s2) ->
@@ -377,7 +432,7 @@ Proof.
       pose proof (run_body_flags E C fault k _ _ _ _ _ _ Ek) as Fk.
       destruct (Hstep (rb_back _ _ Fk Hrb) (drop_back _ _ Fk Hdr)) as [Eh [t1 [local1 [St HS1]]]]. subst h1.
       pose proof St as (A1 & A2 & A3 & _).
-      destruct (IHk avail _ _ _ _ _ _ _ _ _ Ek (inv_dead _ _ _ _ _ _ _ _ _ _ _ St Hdead) (inv_nonest _ _ _ _ _ _ _ _ _ _ _ St Hnn) Hnck A1 HS1 Hsck A3 Hrb Hdr) as [t' [local' HI]].
+      destruct (IHk avail _ _ _ _ _ _ _ _ _ Ek (inv_dead _ _ _ _ _ _ _ _ _ _ _ St Hdead) Hnck A1 HS1 Hsck A3 Hrb Hdr) as [t' [local' HI]].
       exists t', local'. eapply inv_trans_cons; eassumption. }
     assert (Hret : (r0, [o], h1, s1) = (r, l, h', s') ->
               exists t' local', Inv base (is_ok r) h s t local l h' s' t' local').
@@ -405,7 +460,7 @@ Proof.
       pose proof St as (A1 & A2 & A3 & _).
       assert (HS1 : Sub (n :: avail) (unames ((NUser n, t) :: local))).
       { unfold unames; cbn [fu map fst]. apply sub_take. exact HS. }
-      destruct (IHk (n :: avail) _ _ _ _ _ _ _ _ _ Ek (inv_dead _ _ _ _ _ _ _ _ _ _ _ St Hdead) (inv_nonest _ _ _ _ _ _ _ _ _ _ _ St Hnn) Hnc A1 HS1 Hsc A3 Hrb Hdr) as [t' [local' HI]].
+      destruct (IHk (n :: avail) _ _ _ _ _ _ _ _ _ Ek (inv_dead _ _ _ _ _ _ _ _ _ _ _ St Hdead) Hnc A1 HS1 Hsc A3 Hrb Hdr) as [t' [local' HI]].
       exists t', local'. eapply inv_trans_cons; eassumption.
   - (* RbTo *)
     apply andb_prop in Hsc. destruct Hsc as [Hmem Hsck]. apply memz_In in Hmem.
@@ -421,7 +476,7 @@ Proof.
       destruct (rbto_step E savepoint_pushes rollback_to_exact C savepoints fault _ _ _ _ _ _ _ _ _ Es Hdead Htx Hg HS Hmem (drop_back _ _ Fk Hdr))
         as [[_ [snap [local2 [St HS2]]]] | [e' [Ee _]]]; [|discriminate].
       pose proof St as (A1 & A2 & A3 & _).
-      destruct (IHk (cutz n avail) _ _ _ _ _ _ _ _ _ Ek (inv_dead _ _ _ _ _ _ _ _ _ _ _ St Hdead) (inv_nonest _ _ _ _ _ _ _ _ _ _ _ St Hnn) Hnc A1 HS2 Hsck A3 Hrb Hdr) as [t' [local' HI]].
+      destruct (IHk (cutz n avail) _ _ _ _ _ _ _ _ _ Ek (inv_dead _ _ _ _ _ _ _ _ _ _ _ St Hdead) Hnc A1 HS2 Hsck A3 Hrb Hdr) as [t' [local' HI]].
       exists t', local'. eapply inv_trans_cons; eassumption.
 Qed.
 End Body.
